@@ -444,4 +444,63 @@ theorem compact_loop1_eq (hpage : PageSpec) (cap : Int) : ∀ (n : Nat) (l : Lis
             rw [hpl2, ← hA, hAl] at this
             exact this
 
+/-- `compactLoop` keeps `pageLenLog2` (no invariant needed) -/
+theorem compactLoop_log2 : ∀ (n : Nat) (l : List Int) (sm : PStore) (kept : List Int) (r : PStore × List Int),
+    sm.compactLoop n l kept = some r → r.1.pageLenLog2 = sm.pageLenLog2 := by
+  intro n
+  induction n with
+  | zero =>
+    intro l sm kept r h
+    unfold PStore.compactLoop at h
+    cases h; rfl
+  | succ n ih =>
+    intro l sm kept r h
+    cases l with
+    | nil => unfold PStore.compactLoop at h; cases h; rfl
+    | cons x xs =>
+      unfold PStore.compactLoop at h
+      dsimp only at h
+      generalize sm.spanPage (sm.pageIndex x) (x :: xs) = gr at h
+      obtain ⟨grp, rest⟩ := gr
+      simp only at h
+      split at h
+      · cases h
+      · rename_i s1 k hpg
+        have hlog := (page_props sm s1 _ _ _ hpg).1
+        rw [foldlM_addLine_eq] at h
+        split at h
+        · cases h
+        · rename_i s2 hfold
+          rw [ih _ _ _ _ h, foldlM_addLine_log2 k _ s1 s2 hfold, hlog]
+      · rename_i s1 hpg
+        rw [ih _ _ _ _ h, (page_props sm s1 _ _ _ hpg).1]
+
+/-! ### `compact` -/
+
+/-- fuel that `compact` needs: the trace of the model's loop over the sorted buffer (one unit per page group,
+    plus the length of the group and `pageFuel` of its page inside the iteration) -/
+def compactFuel (s : PStore) : Nat :=
+  loopFuel s ((PStore.sortInts s.buffer).length + 1) (PStore.sortInts s.buffer)
+
+theorem compact_spec (hpage : PageSpec) : CompactSpec compactFuel := by
+  intro s cap fuel hf
+  unfold BufferedPaginatedStore.compact PStore.compact
+  have h1 := compact_loop1_eq hpage cap ((PStore.sortInts s.buffer).length + 1) (PStore.sortInts s.buffer) s []
+    fuel (by omega) hf
+  simp only [List.length_nil, List.reverse_nil, List.nil_append] at h1
+  push_cast at h1
+  simp only [gen_pageLen, sortBuffer_eq]
+  show Loop.elim (BufferedPaginatedStore.compact.loop1 (↑s.pageLen) fuel 0 (toGen (setBuf s (PStore.sortInts s.buffer)) cap)) _ = _
+  rw [h1]
+  cases hc : s.compactLoop ((PStore.sortInts s.buffer).length + 1) (PStore.sortInts s.buffer) [] with
+  | none => rfl
+  | some r =>
+    obtain ⟨s', kept⟩ := r
+    have hlog := compactLoop_log2 _ _ _ _ _ hc
+    have hpl : s'.pageLen = s.pageLen := PStore.pageLen_congr hlog
+    simp only [Loop.elim_done, Option.bind_eq_bind, Option.bind_some, Option.pure_def, toRes_some]
+    simp only [toGen, setBuf, GoSem.len, hpl]
+    push_cast
+    rfl
+
 end DDS.GenPag
